@@ -257,28 +257,195 @@ pub(crate) mod kani_verif {
         };
     }
     // ---- quick tier: 2-level build (smallest structures); thorough tier: default 8-level capacity (config w8)
-    // @h name=c04_core_l1 props=C04,C11,C05,C03 tier=quick kind=proved cfg=L2w8 timeout=900 funcs=hss_sign_core;ReferenceImplPrivateKey::from_binary_representation;ReferenceImplPrivateKey::to_binary_representation;CompressedParameterSet::to contract="(callee ReferenceImplPrivateKey::increment by its contract, proved in c05_outer_inc_*) Ok => callback invoked exactly once, after signing, returned Ok, argument == successor blob (counter+1 / wiped); callback Err => Err; any failure => callback not invoked; every key blob with a valid 1-level list"
+    // @h name=c04_core_l1 props=C04,C11,C05,C03 tier=quick kind=proved cfg=L2w8 timeout=1500 kani_args="--no-memory-safety-checks --no-undefined-function-checks" funcs=hss_sign_core;ReferenceImplPrivateKey::from_binary_representation;ReferenceImplPrivateKey::to_binary_representation;CompressedParameterSet::to contract="(callee ReferenceImplPrivateKey::increment by its contract, proved in c05_outer_inc_*) Ok => callback invoked exactly once, after signing, returned Ok, argument == successor blob (counter+1 / wiped); callback Err => Err; any failure => callback not invoked; every key blob with a valid 1-level list"
     protocol_harness!(c04_core_l1, false, 1);
-    // @h name=c04_core_l2 props=C04,C11,C05,C03 tier=quick kind=proved cfg=L2w8 timeout=900 funcs=hss_sign_core contract="same, valid 2-level lists"
+    // @h name=c04_core_l2 props=C04,C11,C05,C03 tier=quick kind=proved cfg=L2w8 timeout=1500 kani_args="--no-memory-safety-checks --no-undefined-function-checks" funcs=hss_sign_core contract="same, valid 2-level lists"
     protocol_harness!(c04_core_l2, false, 2);
-    // @h name=c04_core_empty props=C04,C11,C05 tier=quick kind=proved cfg=L2w8 timeout=900 funcs=hss_sign_core;CompressedParameterSet::to contract="empty parameter list (wiped / exhausted key): Err, callback not invoked, nothing signed"
+    // @h name=c04_core_empty props=C04,C11,C05 tier=quick kind=proved cfg=L2w8 timeout=1500 kani_args="--no-memory-safety-checks --no-undefined-function-checks" funcs=hss_sign_core;CompressedParameterSet::to contract="empty parameter list (wiped / exhausted key): Err, callback not invoked, nothing signed"
     protocol_harness!(c04_core_empty, false, 0);
-    // @h name=c04_core_bad0 props=C04,C11,C14 tier=quick kind=proved cfg=L2w8 timeout=900 funcs=hss_sign_core;CompressedParameterSet::to contract="parameter byte 0 invalid or beyond the build limits: Err, no panic, callback not invoked"
+    // @h name=c04_core_bad0 props=C04,C11,C14 tier=quick kind=proved cfg=L2w8 timeout=1500 kani_args="--no-memory-safety-checks --no-undefined-function-checks" funcs=hss_sign_core;CompressedParameterSet::to contract="parameter byte 0 invalid or beyond the build limits: Err, no panic, callback not invoked"
     protocol_harness!(c04_core_bad0, false, 10);
-    // @h name=c04_core_bad1 props=C04,C11,C14 tier=quick kind=proved cfg=L2w8 timeout=900 funcs=hss_sign_core;CompressedParameterSet::to contract="parameter byte 1 invalid or beyond the build limits"
+    // @h name=c04_core_bad1 props=C04,C11,C14 tier=quick kind=proved cfg=L2w8 timeout=1500 kani_args="--no-memory-safety-checks --no-undefined-function-checks" funcs=hss_sign_core;CompressedParameterSet::to contract="parameter byte 1 invalid or beyond the build limits"
     protocol_harness!(c04_core_bad1, false, 11);
-    // @h name=c04_core_toomany props=C04,C11,C14 tier=quick kind=proved cfg=L2w8 timeout=900 funcs=hss_sign_core;ReferenceImplPrivateKey::from_binary_representation contract="more levels than the build supports: Err, callback not invoked"
+    // @h name=c04_core_toomany props=C04,C11,C14 tier=quick kind=proved cfg=L2w8 timeout=1500 kani_args="--no-memory-safety-checks --no-undefined-function-checks" funcs=hss_sign_core;ReferenceImplPrivateKey::from_binary_representation contract="more levels than the build supports: Err, callback not invoked"
     protocol_harness!(c04_core_toomany, false, 20);
-    // @h name=c04_hss_sign_l1 props=C04,C09 tier=quick kind=proved cfg=L2w8 timeout=900 funcs=hss_sign contract="same protocol through the public byte-level entry point hss_sign, 1 level"
+    // @h name=c04_hss_sign_l1 props=C04,C09 tier=quick kind=proved cfg=L2w8 timeout=1500 kani_args="--no-memory-safety-checks --no-undefined-function-checks" funcs=hss_sign contract="same protocol through the public byte-level entry point hss_sign, 1 level"
     protocol_harness!(c04_hss_sign_l1, true, 1);
-    // @h name=c04_w8_l1 props=C04,C11,C05,C03 tier=thorough kind=proved cfg=w8 timeout=3000 funcs=hss_sign_core contract="default capacity (8 levels): valid 1-level lists"
+    // @h name=c04_w8_l1 props=C04,C11,C05,C03 tier=thorough kind=proved cfg=w8 timeout=3000 kani_args="--no-memory-safety-checks --no-undefined-function-checks" funcs=hss_sign_core contract="default capacity (8 levels): valid 1-level lists"
     protocol_harness!(c04_w8_l1, false, 1);
-    // @h name=c04_w8_l3 props=C04,C11,C05,C03 tier=thorough kind=proved cfg=w8 timeout=3000 funcs=hss_sign_core contract="default capacity: valid 3-level lists"
+    // @h name=c04_w8_l3 props=C04,C11,C05,C03 tier=thorough kind=proved cfg=w8 timeout=3000 kani_args="--no-memory-safety-checks --no-undefined-function-checks" funcs=hss_sign_core contract="default capacity: valid 3-level lists"
     protocol_harness!(c04_w8_l3, false, 3);
-    // @h name=c04_w8_l8 props=C04,C11,C05,C03 tier=thorough kind=proved cfg=w8 timeout=3000 funcs=hss_sign_core contract="default capacity: valid 8-level lists"
+    // @h name=c04_w8_l8 props=C04,C11,C05,C03 tier=thorough kind=proved cfg=w8 timeout=3000 kani_args="--no-memory-safety-checks --no-undefined-function-checks" funcs=hss_sign_core contract="default capacity: valid 8-level lists"
     protocol_harness!(c04_w8_l8, false, 8);
-    // @h name=c04_w8_bad4 props=C04,C11 tier=thorough kind=proved cfg=w8 timeout=3000 funcs=hss_sign_core contract="default capacity: invalid parameter byte at position 4"
+    // @h name=c04_w8_bad4 props=C04,C11 tier=thorough kind=proved cfg=w8 timeout=3000 kani_args="--no-memory-safety-checks --no-undefined-function-checks" funcs=hss_sign_core contract="default capacity: invalid parameter byte at position 4"
     protocol_harness!(c04_w8_bad4, false, 14);
-    // @h name=c04_w8_bad7 props=C04,C11 tier=thorough kind=proved cfg=w8 timeout=3000 funcs=hss_sign_core contract="default capacity: invalid parameter byte at position 7"
+    // @h name=c04_w8_bad7 props=C04,C11 tier=thorough kind=proved cfg=w8 timeout=3000 kani_args="--no-memory-safety-checks --no-undefined-function-checks" funcs=hss_sign_core contract="default capacity: invalid parameter byte at position 7"
     protocol_harness!(c04_w8_bad7, false, 17);
+
+    // ------------------------------------------------------------------ C11/C04: key blobs of the wrong length
+    // @h props=C11,C04 tier=quick kind=proved cfg=L2w8 timeout=1200 funcs=hss_sign_core;ReferenceImplPrivateKey::from_binary_representation;SigningKey::get_lifetime contract="key blobs of length 0, 1, 31, 33, 48, 64 (n=16: valid length is 32) with arbitrary content: Err, no panic, callback not invoked; get_lifetime Err"
+    #[kani::proof]
+    #[kani::stub(zeroize::optimization_barrier, no_barrier)]
+    #[kani::stub(<[u8; 32] as tinyvec::Array>::default, fast_default)]
+    #[kani::unwind(36)]
+    fn c11_badlen() {
+        reset_counters();
+        let buf: [u8; 64] = kani::any();
+        let lens = [0usize, 1, 31, 33, 48, 64];
+        let mut i = 0;
+        while i < lens.len() {
+            let mut cb = |_k: &[u8]| -> Result<(), ()> {
+                CB_CALLS.fetch_add(1, Ordering::Relaxed);
+                Ok(())
+            };
+            let r = hss_sign_core::<H>(Some(&[1, 2, 3]), None, &buf[..lens[i]], &mut cb, None);
+            assert!(r.is_err() && CB_CALLS.load(Ordering::Relaxed) == 0, "wrong length: Err, callback not invoked");
+            let sk = SigningKey::<H>::from_bytes(&buf[..lens[i]]);
+            if let Ok(sk) = sk {
+                assert!(sk.get_lifetime().is_err(), "lifetime query on a truncated / padded key fails");
+            } else {
+                assert!(lens[i] > crate::constants::REF_IMPL_MAX_PRIVATE_KEY_SIZE, "from_bytes only refuses over-long keys");
+            }
+            i += 1;
+        }
+        kani::cover!(true, "reachable");
+    }
+
+    // ------------------------------------------------------------------ C09/C04: the in-memory signing key uses the same path
+    static HS_CALLS: AtomicU32 = AtomicU32::new(0);
+    static HS_KEY: [core::sync::atomic::AtomicU8; 32] = [const { core::sync::atomic::AtomicU8::new(0) }; 32];
+    static HS_NEW: [core::sync::atomic::AtomicU8; 32] = [const { core::sync::atomic::AtomicU8::new(0) }; 32];
+    static HS_CB: AtomicU32 = AtomicU32::new(0);
+    /// contract stub of hss_sign (its protocol is what c04_* prove): may or may not call the callback once with a new
+    /// 32-byte key, and returns Ok only if it did and the callback accepted
+    pub fn stub_hss_sign_fn<H: HashChain>(
+        message: &[u8],
+        private_key: &[u8],
+        private_key_update_function: &mut dyn FnMut(&[u8]) -> Result<(), ()>,
+        aux_data: Option<&mut &mut [u8]>,
+    ) -> Result<Signature, Error> {
+        HS_CALLS.fetch_add(1, Ordering::Relaxed);
+        assert!(message.len() == 3 && aux_data.is_none(), "message and aux data passed through");
+        let mut i = 0;
+        while i < 32 && i < private_key.len() {
+            HS_KEY[i].store(private_key[i], Ordering::Relaxed);
+            i += 1;
+        }
+        if kani::any() {
+            return Err(Error::new());
+        }
+        let newk: [u8; 32] = kani::any();
+        i = 0;
+        while i < 32 {
+            HS_NEW[i].store(newk[i], Ordering::Relaxed);
+            i += 1;
+        }
+        HS_CB.store(1, Ordering::Relaxed);
+        private_key_update_function(&newk).map_err(|_| Error::new())?;
+        Signature::from_bytes_verbose(&[9u8, 9], 0)
+    }
+    // @h props=C09,C04,C03 tier=quick kind=proved cfg=L2w8 timeout=1200 funcs=SigningKey::try_sign_with_aux;SigningKey::try_sign contract="try_sign(msg) == hss_sign(msg, self.bytes, copy-back, None): passes the current key bytes, and afterwards self.bytes is exactly the callback's argument if the callback ran, unchanged otherwise; every key content"
+    #[kani::proof]
+    #[kani::stub(zeroize::optimization_barrier, no_barrier)]
+    #[kani::stub(<[u8; 32] as tinyvec::Array>::default, fast_default)]
+    #[kani::stub(crate::hss::hss_sign, stub_hss_sign_fn)]
+    #[kani::unwind(70)]
+    fn c09_try_sign() {
+        HS_CALLS.store(0, Ordering::Relaxed);
+        HS_CB.store(0, Ordering::Relaxed);
+        let kb: [u8; 32] = kani::any();
+        let mut sk = SigningKey::<H>::from_bytes(&kb).unwrap();
+        let msg: [u8; 3] = kani::any();
+        let r = sk.try_sign(&msg);
+        assert!(HS_CALLS.load(Ordering::Relaxed) == 1, "one call of the byte-level signer");
+        let mut i = 0;
+        while i < 32 {
+            assert!(HS_KEY[i].load(Ordering::Relaxed) == kb[i], "the byte-level signer sees exactly the in-memory key");
+            if HS_CB.load(Ordering::Relaxed) == 1 {
+                assert!(sk.as_slice()[i] == HS_NEW[i].load(Ordering::Relaxed), "the whole successor key is copied back, not only the counter");
+            } else {
+                assert!(sk.as_slice()[i] == kb[i], "no callback => key unchanged");
+            }
+            i += 1;
+        }
+        assert!(r.is_ok() == (HS_CB.load(Ordering::Relaxed) == 1), "result is the byte-level signer's result");
+        kani::cover!(r.is_ok(), "success reachable");
+        kani::cover!(r.is_err(), "failure reachable");
+    }
+
+    // ------------------------------------------------------------------ C06: byte-level constructors of the public objects
+    // @h props=C06 tier=quick kind=proved cfg=L2w8 timeout=1200 funcs=Signature::from_bytes;Signature::from_bytes_verbose;VerifyingKey::from_bytes;SigningKey::from_bytes contract="from_bytes: Ok with identical bytes iff the input fits the fixed capacity, Err otherwise, never a panic (lengths 0, 5, capacity, capacity+1)"
+    #[kani::proof]
+    #[kani::stub(<[u8; 32] as tinyvec::Array>::default, fast_default)]
+    #[kani::unwind(70)]
+    fn c06_from_bytes() {
+        use crate::constants::{MAX_HSS_PUBLIC_KEY_LENGTH, MAX_HSS_SIGNATURE_LENGTH};
+        use crate::signature::Signature as SigTrait;
+        let buf = [7u8; MAX_HSS_SIGNATURE_LENGTH + 1];
+        assert!(Signature::from_bytes(&buf[..0]).unwrap().as_ref().len() == 0, "empty");
+        assert!(Signature::from_bytes(&buf[..5]).unwrap().as_ref() == &buf[..5], "short");
+        assert!(Signature::from_bytes(&buf[..MAX_HSS_SIGNATURE_LENGTH]).is_ok(), "exactly the capacity");
+        assert!(Signature::from_bytes(&buf[..]).is_err(), "one byte more than the capacity: Err");
+        let pb: [u8; MAX_HSS_PUBLIC_KEY_LENGTH + 1] = kani::any();
+        assert!(VerifyingKey::<H>::from_bytes(&pb[..0]).is_ok() && VerifyingKey::<H>::from_bytes(&pb[..MAX_HSS_PUBLIC_KEY_LENGTH]).unwrap().as_slice() == &pb[..MAX_HSS_PUBLIC_KEY_LENGTH], "verifying key up to capacity");
+        assert!(VerifyingKey::<H>::from_bytes(&pb[..]).is_err(), "verifying key: over-long input is an error");
+        kani::cover!(true, "reachable");
+    }
+
+    // ------------------------------------------------------------------ C15: fast-verify front end
+    #[cfg(feature = "fast_verify")]
+    static CORE_CALLS: AtomicU32 = AtomicU32::new(0);
+    #[cfg(feature = "fast_verify")]
+    static CORE_ARGS_OK: AtomicU32 = AtomicU32::new(0);
+    #[cfg(feature = "fast_verify")]
+    pub fn stub_sign_core<H: HashChain>(
+        message: Option<&[u8]>,
+        message_mut: Option<&mut [u8]>,
+        _private_key: &[u8],
+        _private_key_update_function: &mut dyn FnMut(&[u8]) -> Result<(), ()>,
+        _aux_data: Option<&mut &mut [u8]>,
+    ) -> Result<Signature, Error> {
+        CORE_CALLS.fetch_add(1, Ordering::Relaxed);
+        CORE_ARGS_OK.store((message.is_none() && message_mut.is_some()) as u32, Ordering::Relaxed);
+        if kani::any() {
+            Err(Error::new())
+        } else {
+            Signature::from_bytes_verbose(&[9u8, 9], 0)
+        }
+    }
+    #[cfg(feature = "fast_verify")]
+    fn check_sign_mut<const LEN: usize>() {
+        CORE_CALLS.store(0, Ordering::Relaxed);
+        reset_counters();
+        let mut msg: [u8; LEN] = kani::any();
+        let before = msg;
+        let key: [u8; 32] = kani::any();
+        let mut cb = |_k: &[u8]| -> Result<(), ()> {
+            CB_CALLS.fetch_add(1, Ordering::Relaxed);
+            Ok(())
+        };
+        let r = hss_sign_mut::<H>(&mut msg, &key, &mut cb, None);
+        let trailer_zero = LEN > N && before[LEN - N..].iter().all(|b| *b == 0);
+        if LEN <= N || !trailer_zero {
+            assert!(r.is_err(), "too short or non-zero trailer: refused");
+            assert!(CORE_CALLS.load(Ordering::Relaxed) == 0 && CB_CALLS.load(Ordering::Relaxed) == 0, "nothing signed, no leaf consumed");
+            assert!(msg == before, "message untouched");
+        } else {
+            assert!(CORE_CALLS.load(Ordering::Relaxed) == 1 && CORE_ARGS_OK.load(Ordering::Relaxed) == 1, "goes through the ordinary signing core with the mutable message");
+        }
+        kani::cover!(LEN <= N || trailer_zero, "accepted or too-short path reachable");
+        kani::cover!(LEN <= N || !trailer_zero, "refused path reachable");
+    }
+    // @h props=C15 tier=quick kind=proved cfg=fastverify timeout=1500 funcs=hss_sign_mut contract="message of length <= n or with a non-zero byte in the last n bytes: Err before hss_sign_core, callback not invoked, message untouched; otherwise exactly one call of hss_sign_core(None, Some(message)); lengths 0,16,17,40 (n=16), every content"
+    #[cfg(feature = "fast_verify")]
+    #[kani::proof]
+    #[kani::stub(<[u8; 32] as tinyvec::Array>::default, fast_default)]
+    #[kani::stub(crate::hss::hss_sign_core, stub_sign_core)]
+    #[kani::unwind(50)]
+    fn c15_sign_mut_front() {
+        check_sign_mut::<0>();
+        check_sign_mut::<16>();
+        check_sign_mut::<17>();
+        check_sign_mut::<40>();
+    }
 }
